@@ -893,6 +893,14 @@ class Exec:
         """x in lst -> list of (bool found | Exc, state, position term or None); forks."""
         lst = self.deref(lst, st)
         x = self.deref(x, st)
+        if isinstance(x, SelfRef):
+            x = self.ctx.contracts.self_obj(self, st)
+        if isinstance(lst, VOpt) and isinstance(self.deref(lst.val, st), SList):
+            exs, ok = self.raise_if(st, lst.isnone, "TypeError", lineno, "membership in None")
+            res = [(e, s, None) for e, s in exs]
+            if ok is not None:
+                res.extend(self.member(x, lst.val, ok, lineno))
+            return res
         if isinstance(lst, VTuple):
             c = z3.Or(*[V.eq(x, y) for y in lst.items]) if lst.items else z3.BoolVal(False)
             return [(b, s, None) for b, s in self.branch(st, c, lineno)]
@@ -1340,6 +1348,8 @@ class Exec:
         if name == "append":
             s = st.fork()
             x = self.deref(args[0], st)
+            if isinstance(x, SelfRef):
+                x = self.ctx.contracts.self_obj(self, st)
             if isinstance(x, VDyn) and lst.ekind[0] == "num":
                 # a dynamic number stored in a numeric list (the code has compared it with numbers before)
                 x = Num(z3.ToInt(x.num)) if lst.ekind[1] == "int" else Num(x.num)
